@@ -203,7 +203,20 @@ func (e *Engine) verifyFunction(f *ssa.Function, spec *FuncSpec) *collector {
 		coll.obls = append(coll.obls, &Obligation{Func: e.fnKey(f), Kind: "vacuity", Name: "pre-satisfiable", Props: specProps(spec),
 			Cmds: append([]string(nil), s.cmds...), Goal: "false", Expect: "sat", Where: spec.Where})
 	}
+	if spec != nil {
+		for _, ac := range spec.AtCalls {
+			ac.Used = false
+		}
+	}
 	s.explore(f.Blocks[0])
+	if spec != nil {
+		for _, ac := range spec.AtCalls {
+			if !ac.Used {
+				coll.obls = append(coll.obls, &Obligation{Func: e.fnKey(f), Kind: "anchor", Name: "anchor:atcall " + ac.Callee + "/" + ac.Clause.Name, Props: ac.Clause.Props,
+					Goal: "false", Expect: "unsat", Where: ac.Clause.Where, Detail: "call-site clause names a callee that is never called on any explored path", Spec: ac.Clause.Src})
+			}
+		}
+	}
 	return coll
 }
 
